@@ -474,7 +474,7 @@ def render_fmt(m, st, fa):
     return StrV(tuple(out))
 
 
-@contract(r'^(std|alloc|core)::fmt::format$', 2)
+@contract(r'^((std|alloc|core)::fmt::)?format$', 2)        # the MIR printer trims the path when `format` is unambiguous in the crate
 def c_fmt_format(m, st, f, a):
     return render_fmt(m, st, a[0])
 
